@@ -56,7 +56,9 @@ func coWord(r *rand.Rand) string {
 }
 
 // keys that real record types share: used to provoke collisions between records
-var sharedKeys = []string{"pid", "uid", "comm", "exe", "name", "path", "addr", "ses", "exit", "tty", "dev", "inode", "op", "res2", "gid", "ppid", "cwd", "proctitle", "hostname", "terminal"}
+var sharedKeys = []string{"pid", "uid", "comm", "exe", "name", "path", "addr", "ses", "exit", "tty", "dev", "inode", "op", "res2", "gid", "ppid", "cwd", "proctitle", "hostname", "terminal",
+	// keys under which the coalescer files EXECVE and SOCKADDR fields: a collision is a collision
+	"argc", "socket_addr", "socket_port", "socket_family", "socket_path", "socket_saddr"}
 
 func extras(r *rand.Rand, n int) string {
 	var sb strings.Builder
@@ -138,6 +140,12 @@ func randomGroup(r *rand.Rand) ([]recSpec, string) {
 			} else {
 				b += fmt.Sprintf(` a%d="%s"`, i, coWord(r))
 			}
+		}
+		switch r.Intn(8) { // fields beyond argc and a0..a<argc-1>
+		case 0:
+			b += fmt.Sprintf(` a%d="%s"`, argc, coWord(r))
+		case 1:
+			b += fmt.Sprintf(` x%s=%s`, coWord(r)[:1], coWord(r))
 		}
 		rest = append(rest, recSpec{1309, b})
 	}
